@@ -42,17 +42,80 @@ func (d duty) root() [32]byte {
 	return model.SigningRoot(AttRoot(d.e), AttDomain(0))
 }
 
-// signDuty asks instance id for a partial signature on the duty.
-func signDuty(c *rig.Cluster, id uint64, account string, d duty) []byte {
+// Routes by which a duty can reach an instance.
+const (
+	routeSingleName = 0 // single request, account addressed by name
+	routeSingleKey  = 1 // single request, account addressed by (share) public key
+	routeBatch1Name = 2 // batch of one, by name
+	routeBatch2Key  = 3 // batch of two (with an unrelated plain account of the same instance), by public key
+)
+
+// A sequence element: duty (0 = first, 1 = second of the conflicting pair) + 2*route.
+func symDuty(sym int) int  { return sym % 2 }
+func symRoute(sym int) int { return sym / 2 }
+
+// signDuty asks instance id for a partial signature on the duty through the given route.
+func signDuty(c *rig.Cluster, id uint64, account string, d duty, route int) []byte {
 	n := c.Nodes[id]
 	creds := &checker.Credentials{Client: rig.DefaultClient, RequestID: "s", IP: "10.0.0.1"}
+	name, key := account, []byte(nil)
+	if route == routeSingleKey || route == routeBatch2Key {
+		_, acc, err := n.Rig.RealFetch.FetchAccount(n.Rig.Ctx, account)
+		if err != nil {
+			return nil
+		}
+		name, key = "", acc.PublicKey().Marshal()
+	}
 	if d.prop {
-		_, sig := n.Rig.Signer.SignBeaconProposal(n.Rig.Ctx, creds, account, nil, PropData(d.e))
+		_, sig := n.Rig.Signer.SignBeaconProposal(n.Rig.Ctx, creds, name, key, PropData(d.e))
 		return sig
 	}
 	var data *rules.SignBeaconAttestationData = AttData(d.e)
-	_, sig := n.Rig.Signer.SignBeaconAttestation(n.Rig.Ctx, creds, account, nil, data)
+	switch route {
+	case routeBatch1Name:
+		_, sigs := n.Rig.Signer.SignBeaconAttestations(n.Rig.Ctx, creds, []string{name}, nil, []*rules.SignBeaconAttestationData{data})
+		if len(sigs) > 0 {
+			return sigs[0]
+		}
+		return nil
+	case routeBatch2Key:
+		// The companion is a fresh plain account each time, so its entry is always approved.
+		comp := n.Rig.AddSymAccount("Wallet 1", "", "pass", true)
+		_, sigs := n.Rig.Signer.SignBeaconAttestations(n.Rig.Ctx, creds, []string{"", ""}, [][]byte{comp.PubBytes(), key},
+			[]*rules.SignBeaconAttestationData{AttData(Ent{S: 0, T: 1, Root: 1}), data})
+		if len(sigs) > 1 {
+			return sigs[1]
+		}
+		return nil
+	}
+	_, sig := n.Rig.Signer.SignBeaconAttestation(n.Rig.Ctx, creds, name, key, data)
 	return sig
+}
+
+// c14RoutedSequences: every sequence of length <= 2 over the routed duties (4 routes for attestations, the two
+// single routes for proposals), plus every sequence of length 3 over the plain single-by-name duties.
+func c14RoutedSequences(prop bool) [][]int {
+	routes := []int{routeSingleName, routeSingleKey, routeBatch1Name, routeBatch2Key}
+	if prop {
+		routes = []int{routeSingleName, routeSingleKey}
+	}
+	var syms []int
+	for _, r := range routes {
+		syms = append(syms, 2*r, 2*r+1)
+	}
+	res := [][]int{{}}
+	for _, a := range syms {
+		res = append(res, []int{a})
+		for _, b := range syms {
+			res = append(res, []int{a, b})
+		}
+	}
+	for _, s := range c14Sequences(3) {
+		if len(s) == 3 {
+			res = append(res, s)
+		}
+	}
+	return res
 }
 
 func c14Sequences(maxLen int) [][]int {
@@ -88,13 +151,13 @@ func runAssignment(c *rig.Cluster, ids []uint64, t uint32, pair dutyPair, seqs [
 	for i, id := range ids {
 		ra, rb := false, false
 		for _, d := range seqs[i] {
-			if d == 0 {
-				if sig := signDuty(c, id, account, pair.a); len(sig) > 0 {
+			if symDuty(d) == 0 {
+				if sig := signDuty(c, id, account, pair.a, symRoute(d)); len(sig) > 0 {
 					sigsA[id] = sig
 					ra = true
 				}
 			} else {
-				if sig := signDuty(c, id, account, pair.b); len(sig) > 0 {
+				if sig := signDuty(c, id, account, pair.b, symRoute(d)); len(sig) > 0 {
 					sigsB[id] = sig
 					rb = true
 				}
@@ -212,15 +275,19 @@ func C14(tier string) int {
 		deadline = time.Now().Add(90 * time.Minute)
 	}
 	type unit struct {
-		n    int
-		t    uint32
-		pair dutyPair
+		n      int
+		t      uint32
+		pair   dutyPair
+		routed bool // per-instance exhaustive part: instance 1 runs every routed sequence, the others nothing
 	}
 	var units []unit
+	for _, pair := range c14Pairs() {
+		units = append(units, unit{n: 2, t: 2, pair: pair, routed: true})
+	}
 	for n := 2; n <= maxN; n++ {
 		for t := uint32(n/2 + 1); t <= uint32(n); t++ {
 			for _, pair := range c14Pairs() {
-				units = append(units, unit{n, t, pair})
+				units = append(units, unit{n: n, t: t, pair: pair})
 			}
 		}
 	}
@@ -257,6 +324,9 @@ func C14(tier string) int {
 					return
 				}
 				menu := menuFor(u.n)
+				if u.routed {
+					menu = c14RoutedSequences(u.pair.a.prop)
+				}
 				idx := make([]int, u.n)
 				serial := 0
 				local := 0
@@ -303,6 +373,14 @@ func C14(tier string) int {
 						break
 					}
 					k := 0
+					if u.routed {
+						// Only the first instance varies.
+						idx[0]++
+						if idx[0] >= len(menu) {
+							break
+						}
+						continue
+					}
 					for k < u.n {
 						idx[k]++
 						if idx[k] < len(menu) {
